@@ -30,6 +30,7 @@ import time
 
 CH = 16384  # bytes per chunk: larger than the io buffer, so every chunk write is one write(2)
 OLD_MODE = 0o600
+OLD_MODES = (0o600, 0o444, 0o640)
 DATA_NAME = "m.data"
 MODEL_NAME = "m.onnx"
 OTHER_NAME = "other.data"   # bystander file, variant b
@@ -89,7 +90,18 @@ def norm_cfg(cfg: dict) -> dict:
     if bv == "hard" and c["dest"] != "file":
         raise ValueError("the hard-link spelling needs a regular destination file")
     c["bv"] = bv
+    # permission bits of the files that exist before the save (not in the spec cfg, whose mode is just "old"):
+    # owner read/write, READ-ONLY, group-readable - rotated deterministically over the configurations
+    om = cfg.get("om")
+    if om is None:
+        om = OLD_MODES[(3 * c["nt"] + c["nc"] + len(c["dest"]) + 2 * len(c["backed"]) + c["par"] + c["lim"] + sum(c["pre"])
+                        + len(c["other"])) % len(OLD_MODES)]
+    c["om"] = int(om)
     return c
+
+
+def old_mode(c: dict) -> int:
+    return c.get("om", OLD_MODE)
 
 
 def cfg_key(c: dict, spec_only: bool = False) -> str:
@@ -107,6 +119,8 @@ def cfg_key(c: dict, spec_only: bool = False) -> str:
             s += f"-np{''.join(map(str, c['np']))}"
         if c.get("bv", "plain") != "plain":
             s += f"-bv{c['bv']}"
+        if c.get("om", OLD_MODE) != OLD_MODE:
+            s += f"-m{c['om']:o}"
     return s
 
 
@@ -233,12 +247,12 @@ def prepare_dir(c: dict, d: str) -> None:
         names = file_names(c)
         for sidx in c["pre"]:
             if numbered(c) and sidx < len(names):
-                _write(os.path.join(d, names[sidx]), old_bytes(c), OLD_MODE)
+                _write(os.path.join(d, names[sidx]), old_bytes(c), old_mode(c))
     if c["dest"] == "file":
-        _write(os.path.join(d, DATA_NAME), old_bytes(c), OLD_MODE)
+        _write(os.path.join(d, DATA_NAME), old_bytes(c), old_mode(c))
     elif c["dest"] == "symlink":
         os.makedirs(os.path.join(d, "real"), exist_ok=True)
-        _write(os.path.join(d, real_rel(c)), old_bytes(c), OLD_MODE)
+        _write(os.path.join(d, real_rel(c)), old_bytes(c), old_mode(c))
         os.symlink(real_rel(c), os.path.join(d, DATA_NAME))
     if c.get("bv") == "rel" or (c.get("other") and c["ov"] == "c"):
         os.makedirs(os.path.join(d, SUB_NAME), exist_ok=True)
@@ -246,7 +260,7 @@ def prepare_dir(c: dict, d: str) -> None:
         os.link(os.path.join(d, DATA_NAME), os.path.join(d, HARD_NAME))
     if c.get("other"):
         os.makedirs(other_dir(c, d), exist_ok=True)
-        _write(other_path(c, d), other_bytes(c), OLD_MODE)
+        _write(other_path(c, d), other_bytes(c), old_mode(c))
 
 
 def _write(path: str, data: bytes, mode: int) -> None:
@@ -263,7 +277,7 @@ def _classify(c: dict, f: int, path: str) -> tuple:
         return "Absent", "none", None
     with open(path, "rb") as fh:
         data = fh.read()
-    mode = "old" if stat.S_IMODE(st.st_mode) == OLD_MODE else "new"
+    mode = "old" if stat.S_IMODE(st.st_mode) == old_mode(c) else "new"
     if data == new_bytes(c, f):
         return "New", mode, None
     if data == old_bytes(c):
@@ -314,7 +328,7 @@ def observe(c: dict, d: str) -> dict:
         try:
             with open(other_path(c, d), "rb") as fh:
                 same = fh.read() == other_bytes(c)
-            ofile = "Old" if same and stat.S_IMODE(os.stat(other_path(c, d)).st_mode) == OLD_MODE else "Changed"
+            ofile = "Old" if same and stat.S_IMODE(os.stat(other_path(c, d)).st_mode) == old_mode(c) else "Changed"
         except FileNotFoundError:
             ofile = "Absent"
     for bd in base_dirs:
@@ -939,6 +953,8 @@ class PyLayer:
 
         h = self.h
         for name, real in (("os", os), ("tempfile", tempfile), ("shutil", shutil)):
+            if name == "shutil" and not hasattr(ed, name):
+                continue        # the module does not use shutil (any more): nothing of it to observe
             if getattr(ed, name, None) is not real:
                 raise BindingError(f"onnx_ir.external_data.{name} is not the module {name}")
         if getattr(_io, "onnx", None) is not onnx:
@@ -956,6 +972,11 @@ class PyLayer:
             with h.lock:
                 h.effect("CopyMode", w=0)
                 return shutil.copymode(src, dst, **kw)
+
+        def chmod(path, mode, **kw):       # a permission change by another route than shutil.copymode
+            with h.lock:
+                h.effect("CopyMode", w=0)
+                return os.chmod(path, mode, **kw)
 
         def replace(src, dst, **kw):
             with h.lock:
@@ -1000,9 +1021,11 @@ class PyLayer:
                 h.effect("ModelIO", w=0)
                 return onnx.save(*a, **kw)
 
-        self._set(ed, "os", _Proxy(os, {"replace": replace, "remove": remove, "rmdir": rmdir}))
+        self._set(ed, "os", _Proxy(os, {"replace": replace, "rename": replace, "remove": remove, "unlink": remove, "rmdir": rmdir,
+                                        "chmod": chmod}))
         self._set(ed, "tempfile", _Proxy(tempfile, {"mkdtemp": mkdtemp}))
-        self._set(ed, "shutil", _Proxy(shutil, {"copymode": copymode}))
+        if hasattr(ed, "shutil"):
+            self._set(ed, "shutil", _Proxy(shutil, {"copymode": copymode, "copystat": copymode}))
         self._set(ed, "open", probe_open, must_exist=False)
         self._set(ed, "_check_no_existing_shard_files", check_exists)
         self._set(_io, "onnx", _Proxy(onnx, {"save": onnx_save}))
